@@ -19,6 +19,7 @@ structure State where
       timestamps), packets produced, sequence counters, virtual clock -/
   tun : TunnelCfg := ⟨false, false, false⟩
   crf : CrfState := {}
+  crft : CrfTalkerState := {}
   count : Nat := 1
   frames : List (Nat × CanFrame) := []
   pkts : List (List Byte) := []
@@ -269,6 +270,20 @@ def step (st : State) (line : String) : State × String :=
   | ["rx", "crf", hex] =>
     match parseHex hex with
     | some d => let r := crfListenerStep st.crf (bytesOf d); ({ st with crf := r.1 }, "out " ++ hexOfBytes r.2)
+    | none => (st, "bad-op")
+  | ["rx", "crft", mtt, hex] =>
+    match nat? mtt, parseHex hex with
+    | some mtt, some d => ({ st with crft := crfTalkerRecv mtt st.crft (bytesOf d) }, "out -")
+    | _, _ => (st, "bad-op")
+  | ["crf_fire", k] =>
+    match nat? k with
+    | some k =>
+      if !st.crft.armed then (st, "") else
+      let rec go : Nat → CrfTalkerState → List String → CrfTalkerState × List String
+        | 0, s, acc => (s, acc)
+        | n + 1, s, acc => let r := crfTalkerFire s; go n r.1 (acc ++ ["sent " ++ hexOfBytes r.2])
+      let r := go k st.crft []
+      ({ st with crft := r.1 }, "\n".intercalate r.2)
     | none => (st, "bad-op")
   | ["rx", "aaf", hex] =>
     match parseHex hex with
